@@ -751,4 +751,131 @@ theorem asCalls_spec (cs : List Call) : ∀ d, AsInv d →
     · simp only [asCalls, e1, e2]
     · rw [b2, b1]; simp
 
+/-! ### the parser forwards formats without MPIR conversions unchanged -/
+
+/-- characters after which `__gmp_doprnt` does something itself: the MPIR type letters, `%n`, float conversions -/
+def mpirChars : List Char := ['Z', 'Q', 'N', 'M', 'F', 'n', 'a', 'A', 'e', 'E', 'f', 'g', 'G']
+
+def ModeOK : Mode → Prop
+  | .text => True
+  | .spec ps _ => ps.type ≠ 'Z' ∧ ps.type ≠ 'Q' ∧ ps.type ≠ 'N'
+
+theorem doInteger_std (ps : PS) (tp : List Char) (base : Int) (st : DS)
+    (h : ps.type ≠ 'Z' ∧ ps.type ≠ 'Q' ∧ ps.type ≠ 'N') :
+    doInteger false ps tp base st = (match popInt st.ap with | some (_, as) => some { st with ap := as } | none => none) := by
+  unfold doInteger
+  simp only [h.1, h.2.1, h.2.2, if_false]
+  cases popInt st.ap <;> rfl
+
+/-- what a step may change when nothing is done here: only `ap` and the pending text -/
+def Forwarded (c : Char) (st0 : DS) (m : Mode) (st : DS) : Prop :=
+  ModeOK m ∧ st.pending = c :: st0.pending ∧ st.lastAp = st0.lastAp ∧ st.calls = st0.calls ∧
+    st.retval = st0.retval ∧ st.stores = st0.stores
+
+theorem stepFlag_type (ps : PS) (c : Char) : (stepFlag false ps c).type = ps.type := by
+  unfold stepFlag PS.setValue; split_ifs <;> rfl
+
+def StepOK (c : Char) (st0 : DS) : Step → Prop
+  | .fail => True
+  | .cont m st => Forwarded c st0 m st
+
+theorem StepOK_ofOpt (c : Char) (st0 : DS) (o : Option DS) (h : ∀ st, o = some st → Forwarded c st0 .text st) :
+    StepOK c st0 (Step.ofOpt .text o) := by
+  cases o with
+  | none => trivial
+  | some st => exact h st rfl
+
+theorem StepOK_ite {c : Char} {st0 : DS} {p : Prop} [Decidable p] {a b : Step}
+    (ha : p → StepOK c st0 a) (hb : ¬ p → StepOK c st0 b) : StepOK c st0 (if p then a else b) := by
+  split
+  · exact ha ‹_›
+  · exact hb ‹_›
+
+/-- one character of a `%` sequence that is not one of `mpirChars` leaves everything for the C library -/
+theorem specStep_forward (c : Char) (ps : PS) (tp : List Char) (st0 : DS)
+    (hc : c ∉ mpirChars) (hm : ps.type ≠ 'Z' ∧ ps.type ≠ 'Q' ∧ ps.type ≠ 'N') :
+    StepOK c st0 (specStep false c ps tp st0) := by
+  simp only [mpirChars, List.mem_cons, List.not_mem_nil, or_false, not_or] at hc
+  obtain ⟨hZ, hQ, hN, hM, hF, hn, ha, hA, he, hE, hf, hg, hG⟩ := hc
+  have hty : ({ ps with inNum := false } : PS).type ≠ 'Z' ∧ ({ ps with inNum := false } : PS).type ≠ 'Q' ∧
+      ({ ps with inNum := false } : PS).type ≠ 'N' := hm
+  have hpop : ∀ (st : DS), StepOK c st0 (Step.ofOpt .text
+      (match popInt st0.ap with
+       | some (_, as) => some { st0 with pending := c :: st0.pending, ap := as }
+       | none => none)) := by
+    intro _; apply StepOK_ofOpt; intro st h
+    cases hp : popInt st0.ap with
+    | none => rw [hp] at h; cases h
+    | some x => rw [hp] at h; cases h; exact ⟨trivial, rfl, rfl, rfl, rfl, rfl⟩
+  unfold specStep
+  simp only [doInteger_std _ _ _ _ hty, hZ, hQ, hN, hM, hF, hn, ha, hA, he, hE, hf, hg, hG, false_or, or_false, if_false]
+  repeat' (apply StepOK_ite <;> intro _)
+  all_goals first
+    | exact hpop st0
+    | (cases hp : popInt st0.ap <;>
+        simp_all [StepOK, Forwarded, ModeOK, stepFlag_type, PS.setValue, stepDot, stepStar] <;> (try split_ifs) <;> (try simp_all))
+  all_goals (clear hpop; cases hap : st0.ap <;> simp_all [StepOK, Forwarded, ModeOK])
+
+theorem run_forward (A : List Arg) : ∀ (cs : List Char) (mode : Mode) (st : DS),
+    (∀ c ∈ cs, c ∉ mpirChars) → ModeOK mode → st.calls = [] → st.retval = 0 → st.stores = [] → st.lastAp = A →
+    ∀ r, run false cs mode st = some r →
+      r.stores = [] ∧
+      ((st.pending.reverse ++ cs = [] ∧ r.calls = [] ∧ r.retval = 0) ∨
+       ∃ out, libcFormat (st.pending.reverse ++ cs) A = some out ∧ r.calls = [.format out] ∧ r.retval = out.length) := by
+  intro cs
+  induction cs with
+  | nil =>
+    intro mode st _ _ hcalls hret hstores hlast r hr
+    cases mode with
+    | spec ps tp => simp [run] at hr
+    | text =>
+      simp only [run] at hr
+      by_cases hp : st.pending.isEmpty
+      · simp only [hp, if_true, Option.some.injEq] at hr
+        subst hr
+        refine ⟨hstores, Or.inl ⟨?_, hcalls, hret⟩⟩
+        simpa using hp
+      · simp only [hp] at hr
+        cases hl : libcFormat st.pending.reverse st.lastAp with
+        | none => simp [hl] at hr
+        | some out =>
+          simp only [hl, Bool.false_eq_true, if_false, Option.some.injEq] at hr
+          subst hr
+          refine ⟨hstores, Or.inr ⟨out, ?_, ?_, ?_⟩⟩
+          · simpa [hlast] using hl
+          · simp [DS.emit, hcalls]
+          · simp [DS.emit, hret, Call.bytes]
+  | cons c cs ih =>
+    intro mode st hall hm hcalls hret hstores hlast r hr
+    have hc : c ∉ mpirChars := hall c List.mem_cons_self
+    have hall' : ∀ x ∈ cs, x ∉ mpirChars := fun x hx => hall x (List.mem_cons_of_mem _ hx)
+    have key : ∀ (m' : Mode) (st' : DS), ModeOK m' → st'.pending = c :: st.pending → st'.lastAp = st.lastAp →
+        st'.calls = st.calls → st'.retval = st.retval → st'.stores = st.stores → run false cs m' st' = some r →
+        r.stores = [] ∧
+        ((st.pending.reverse ++ c :: cs = [] ∧ r.calls = [] ∧ r.retval = 0) ∨
+         ∃ out, libcFormat (st.pending.reverse ++ c :: cs) A = some out ∧ r.calls = [.format out] ∧ r.retval = out.length) := by
+      intro m' st' hm' hp hl hc' hr' hs' hrun
+      have := ih m' st' hall' hm' (by rw [hc', hcalls]) (by rw [hr', hret]) (by rw [hs', hstores]) (by rw [hl, hlast]) r hrun
+      rw [hp] at this
+      simpa using this
+    cases mode with
+    | text =>
+      simp only [run] at hr
+      by_cases h : c = '%'
+      · simp only [h, if_true] at hr
+        exact key (.spec {} st.pending) { st with pending := '%' :: st.pending }
+          ⟨by decide, by decide, by decide⟩ (by simp [h]) rfl rfl rfl rfl hr
+      · simp only [h, if_false] at hr
+        exact key .text { st with pending := c :: st.pending } trivial rfl rfl rfl rfl rfl hr
+    | spec ps tp =>
+      simp only [run] at hr
+      have hstep := specStep_forward c ps tp st hc hm
+      cases hs : specStep false c ps tp st with
+      | fail => simp [hs] at hr
+      | cont m' st' =>
+        rw [hs] at hstep hr
+        obtain ⟨h1, h2, h3, h4, h5, h6⟩ := hstep
+        exact key m' st' h1 h2 h3 h4 h5 h6 hr
+
+
 end Mpir.Printf
